@@ -249,13 +249,27 @@ func (s *Sim) releaseWith(a *actor, code int, arg int) {
 	group := c.Kind == KPVC && c.Verb == "create"
 	startTrace := len(s.Trace)
 	startPending := len(s.Store.pending[KPVC])
-	s.release(a, s.decide(a, c, code, arg))
+	// within a claim group the fault is keyed by the identity of the claim (its
+	// template index), never by the order in which the code under test happens to
+	// walk its map: arg%4 == 0 hits every claim of the group, otherwise only the
+	// claims of template (arg%4 - 1)
+	pick := func(call *APICall) int {
+		if !group || arg%4 == 0 {
+			return code
+		}
+		want := fmt.Sprintf("vol%d-", arg%4-1)
+		if len(call.Name) >= len(want) && call.Name[:len(want)] == want {
+			return code
+		}
+		return FNone
+	}
+	s.release(a, s.decide(a, c, pick(c), arg))
 	if !group {
 		return
 	}
 	n := 1
 	for !a.done && a.pending != nil && a.pending.Kind == KPVC && a.pending.Verb == "create" {
-		s.release(a, s.decide(a, a.pending, code, arg))
+		s.release(a, s.decide(a, a.pending, pick(a.pending), arg))
 		n++
 	}
 	if n > 1 {
